@@ -29,7 +29,7 @@ Local Open Scope N_scope.
 
 Inductive cty := CInt (bits : N) (sg : bool) | CPtr | CVoid.
 Inductive unop := ONeg | OBNot.
-Inductive binop := OAdd | OSub | OMul | OShl | OShr | OAnd | OOr | OXor.
+Inductive binop := OAdd | OSub | OMul | OShl | OShr | OAnd | OOr | OXor | ODiv | ORem.
 Inductive cmpop := CEq | CNe | CLt | CLe | CGt | CGe.
 
 Inductive expr :=
@@ -42,6 +42,7 @@ Inductive expr :=
 | ELNot (a : expr)
 | ELAnd (a b : expr)                              (* short-circuit *)
 | ELOr (a b : expr)
+| ECond (c a b : expr)                            (* c ? a : b *)
 | ECast (from to : cty) (a : expr)
 | EDeref (p : expr)                               (* load  *p *)
 | EMember (p : expr) (f : N)                      (* load  p->f *)
@@ -58,6 +59,12 @@ Inductive stmt :=
 | SStore (p : expr) (e : expr)                    (* *p = e *)
 | SStoreMember (p : expr) (f : N) (e : expr)      (* p->f = e *)
 | SIf (c : expr) (t e : stmt)
+| SSwitch (t : cty) (e : expr) (arms : list (list N * stmt)) (dflt : stmt)
+                                                  (* switch: each arm = its case constants and the statements
+                                                     from its label to the end of the switch body (fall-through
+                                                     written out); dflt likewise from the default label *)
+| SBreak
+| SOnce (body : stmt)                             (* do { body } while (0) *)
 | SReturn (e : expr)
 | SReturnVoid
 | SOpaque (kind : N) (clobbers : list N).         (* a loop: arbitrary effects; assigned variables are forgotten *)
@@ -109,6 +116,8 @@ Definition bin_n (op : binop) (t : cty) (a b : N) : N :=
   | OAnd => N.land a b          (* bitwise operations keep in-range patterns in range *)
   | OOr => N.lor a b
   | OXor => N.lxor a b
+  | ODiv => if signed t then ofZ t (Z.quot (sgn t a) (sgn t b)) else norm t a / norm t b
+  | ORem => if signed t then ofZ t (Z.rem (sgn t a) (sgn t b)) else norm t a mod norm t b
   end.
 (* equality compares the patterns; order compares the patterns at unsigned types and the
    two's-complement values at signed types *)
@@ -151,8 +160,18 @@ Definition mk_cast (from to : cty) (a : sval) : sval :=
   end.
 Definition mk_un (op : unop) (t : cty) (a : sval) : sval :=
   match a with SConst n => SConst (un_n op t n) | _ => SUn op t a end.
+(* x % 2^j on an unsigned type is x & (2^j - 1): one form for both spellings *)
+Definition is_pow2 (m : N) : bool := negb (m =? 0) && (N.land m (m - 1) =? 0).
 Definition mk_bin (op : binop) (t : cty) (a b : sval) : sval :=
-  match a, b with SConst x, SConst y => SConst (bin_n op t x y) | _, _ => SBin op t a b end.
+  match a, b with
+  | SConst x, SConst y => SConst (bin_n op t x y)
+  | _, SConst m =>
+      match op with
+      | ORem => if negb (signed t) && is_pow2 m then SBin OAnd t a (SConst (m - 1)) else SBin op t a b
+      | _ => SBin op t a b
+      end
+  | _, _ => SBin op t a b
+  end.
 Definition flip (op : cmpop) : cmpop :=
   match op with CEq => CEq | CNe => CNe | CLt => CGt | CLe => CGe | CGt => CLt | CGe => CLe end.
 Definition is_eqne (op : cmpop) : bool := match op with CEq | CNe => true | _ => false end.
@@ -188,6 +207,26 @@ Inductive dtree :=
 
 Definition mkNode (c : sval) (t f : dtree) : dtree :=
   match c with SConst n => if n =? 0 then f else t | _ => Node c t f end.
+
+(* A decision on  (x - c1) op c2  at an unsigned type (the one-comparison range test
+   `len - MIN > MAX - MIN`): split on whether the subtraction wraps, so that every decision of
+   the tree compares the unknown itself with a constant.
+     x >= c1:  x - c1 op c2        <->  x op c1 + c2
+     x <  c1:  x - c1 = x + d, d = 2^w - c1;  x + d op c2  <->  x op c2 - d  when d <= c2,
+               and x + d >= d > c2 otherwise *)
+Definition cnode (c : sval) (t f : dtree) : dtree :=
+  match c with
+  | SCmp op ty (SBin OSub ty' (SKey k) (SConst c1)) (SConst c2) =>
+      if negb (signed ty) && negb (signed ty') && (width ty =? width ty') &&
+         (c1 <? 2 ^ width ty) && (c2 <? 2 ^ width ty) && negb (c1 =? 0) then
+        let d := 2 ^ width ty - c1 in
+        Node (SCmp CLt ty (SKey k) (SConst c1))
+             (if d <=? c2 then mkNode (SCmp op ty (SKey k) (SConst (c2 - d))) t f
+              else match op with CGt | CGe | CNe => t | _ => f end)
+             (mkNode (SCmp op ty (SKey k) (SConst (c1 + c2))) t f)
+      else mkNode c t f
+  | _ => mkNode c t f
+  end.
 
 Fixpoint eval_tree (w : world) (t : dtree) : dtree :=
   match t with
@@ -248,7 +287,7 @@ Definition kont := sval -> state -> dtree.
 
 (* why-codes of Stuck *)
 Definition W_UNBOUND : N := 1.   Definition W_NOTPTR : N := 2.   Definition W_FUEL : N := 3.
-Definition W_BUILTIN : N := 4.   Definition W_ARITY : N := 5.
+Definition W_BUILTIN : N := 4.   Definition W_ARITY : N := 5.   Definition W_BREAK : N := 6.
 
 (* a pointer value: the pointer held by a key, plus a constant byte offset *)
 Definition as_ptr (v : sval) : option (skey * N) :=
@@ -275,13 +314,14 @@ Section Exec.
     | EUn op t a => ev a en s (fun va s1 => k (mk_un op t va) s1)
     | EBin op t a b => ev a en s (fun va s1 => ev b en s1 (fun vb s2 => k (mk_bin op t va vb) s2))
     | ECmp op t a b => ev a en s (fun va s1 => ev b en s1 (fun vb s2 => k (mk_cmp op t va vb) s2))
-    | ELNot a => ev a en s (fun va s1 => mkNode va (k (SConst 0) s1) (k (SConst 1) s1))
+    | ELNot a => ev a en s (fun va s1 => cnode va (k (SConst 0) s1) (k (SConst 1) s1))
     | ELAnd a b => ev a en s (fun va s1 =>
-                     mkNode va (ev b en s1 (fun vb s2 => mkNode vb (k (SConst 1) s2) (k (SConst 0) s2)))
+                     cnode va (ev b en s1 (fun vb s2 => cnode vb (k (SConst 1) s2) (k (SConst 0) s2)))
                                (k (SConst 0) s1))
     | ELOr a b => ev a en s (fun va s1 =>
-                     mkNode va (k (SConst 1) s1)
-                               (ev b en s1 (fun vb s2 => mkNode vb (k (SConst 1) s2) (k (SConst 0) s2))))
+                     cnode va (k (SConst 1) s1)
+                               (ev b en s1 (fun vb s2 => cnode vb (k (SConst 1) s2) (k (SConst 0) s2))))
+    | ECond c a b => ev c en s (fun vc s1 => cnode vc (ev a en s1 k) (ev b en s1 k))
     | ECast f t a => ev a en s (fun va s1 => k (mk_cast f t va) s1)
     | EDeref p => ev p en s (fun vp s1 =>
                      match vp with
@@ -303,12 +343,12 @@ Section Exec.
            end) args [] s (fun vs s1 => call f vs s1 k)
     end.
 
-  (* kn: continuation on falling through; kr: continuation on return *)
-  Fixpoint ex (c : stmt) (en : env) (s : state) (kn : env -> state -> dtree)
+  (* kn: continuation on falling through; kb: on break; kr: on return *)
+  Fixpoint ex (c : stmt) (en : env) (s : state) (kn kb : env -> state -> dtree)
            (kr : option sval -> state -> dtree) {struct c} : dtree :=
     match c with
     | SSkip => kn en s
-    | SSeq a b => ex a en s (fun en1 s1 => ex b en1 s1 kn kr) kr
+    | SSeq a b => ex a en s (fun en1 s1 => ex b en1 s1 kn kb kr) kb kr
     | SExpr e => ev e en s (fun _ s1 => kn en s1)
     | SDecl x => kn (env_del en [x]) s
     | SSet x e => ev e en s (fun v s1 => kn (env_set en x v) s1)
@@ -321,7 +361,21 @@ Section Exec.
                       match vp with SKey kp => kn en (store kp 0 v s2) | _ => Stuck W_NOTPTR end))
     | SStoreMember p f e => ev p en s (fun vp s1 => ev e en s1 (fun v s2 =>
                       match vp with SKey kp => kn en (store kp f v s2) | _ => Stuck W_NOTPTR end))
-    | SIf c t e => ev c en s (fun vc s1 => mkNode vc (ex t en s1 kn kr) (ex e en s1 kn kr))
+    | SIf c t e => ev c en s (fun vc s1 => cnode vc (ex t en s1 kn kb kr) (ex e en s1 kn kb kr))
+    | SSwitch t e arms dflt =>
+        ev e en s (fun v s1 =>
+          (fix go (l : list (list N * stmt)) : dtree :=
+             match l with
+             | [] => ex dflt en s1 kn kn kr
+             | (labels, body) :: r =>
+                 (fix lab (ls : list N) : dtree :=
+                    match ls with
+                    | [] => go r
+                    | c0 :: lr => cnode (mk_cmp CEq t v (SConst c0)) (ex body en s1 kn kn kr) (lab lr)
+                    end) labels
+             end) arms)
+    | SBreak => kb en s
+    | SOnce body => ex body en s kn kn kr
     | SReturn e => ev e en s (fun v s1 => kr (Some v) s1)
     | SReturnVoid => kr None s
     | SOpaque kind cl => kn (env_del en cl) {| tr := EvOpaque kind :: tr s; mem := []; stat := stat s |}
@@ -368,7 +422,7 @@ Fixpoint callf (T : ftab) (fuel : nat) (f : N) (vs : list sval) (s : state) (k :
           | Some d =>
               if Nat.eqb (length vs) (length (f_params d)) then
                 ex (callf T n) (f_body d) (bind 0 vs) (emit (EvEnter f vs) s)
-                   (fun _ s1 => k (SConst 0) s1)
+                   (fun _ s1 => k (SConst 0) s1) (fun _ _ => Stuck W_BREAK)
                    (fun r s1 => k (match r with Some v => v | None => SConst 0 end) s1)
               else Stuck W_ARITY
           | None =>
@@ -378,7 +432,7 @@ Fixpoint callf (T : ftab) (fuel : nat) (f : N) (vs : list sval) (s : state) (k :
       end
   end.
 
-Definition FUEL : nat := 6.
+Definition FUEL : nat := 8.
 
 Fixpoint arg_keys (i : N) (ps : list cty) : list sval :=
   match ps with [] => [] | _ :: r => SKey (KArg i) :: arg_keys (i + 1) r end.
@@ -386,7 +440,7 @@ Fixpoint arg_keys (i : N) (ps : list cty) : list sval :=
 (* the decision tree of an entry point called with arguments KArg 0 .. KArg (n-1) *)
 Definition entry_tree (T : ftab) (d : fundef) : dtree :=
   ex (callf T FUEL) (f_body d) (bind 0 (arg_keys 0 (f_params d))) st0
-     (fun _ s => Leaf None (rev (tr s)))
+     (fun _ s => Leaf None (rev (tr s))) (fun _ _ => Stuck W_BREAK)
      (fun r s => Leaf r (rev (tr s))).
 
 (* big-step result of entry d in world w: a Leaf (return value, trace) — or Stuck *)
